@@ -73,7 +73,7 @@ class Spec(PropSpec):
     pid = "C07"
     subsys = "Fs"
     props_file = "C07.v"
-    theorems = ["c07_crash_image", "c07_synced_never_lost", "c07_unsynced_entry_gone", "c07_random_sync",
+    theorems = ["c07_crash_image", "c07_synced_never_lost", "c07_unsynced_entry_gone", "c07_no_unwritten_bytes", "c07_random_sync",
                 "c07_rename_file_refuted", "c07_recreate_refuted", "c07_kind_swap_refuted", "c07_nonvacuous"]
     coq_targets = ["C07.vo"]
     consts = FS_CONSTS
@@ -84,6 +84,7 @@ class Spec(PropSpec):
     rule = ("histories as for C10 with Fs::crash injected after every prefix of a base history, at random points, and "
             "repeatedly (crash - continue - crash); sync_probability in {0, p} with the coin read from the verif-hooks log, "
             "block_size in {None, 2, 3} with the torn-write draws read from the log; one or two hosts; std and tokio shim; "
+            "driven directly against an entered Fs (Fs::crash) and through a running Sim (Sim::crash + Sim::bounce); "
             "a case is non-trivial when a dump after a crash shows at least one regular file; distinct = distinct (hosts, script)")
     assumptions = [
         "the background-sync coin and the torn-write block draws are inputs of the model (verif-hooks decision log); the theorems quantify over all their values",
@@ -115,6 +116,13 @@ class Spec(PropSpec):
         for _ in range(40 * k):
             c = F.gen_safe(rng, stale=0.0, crash=0.1, tokio=0.5, setup_sync=2, sync_prob=rng.choice([0.0, 0.4]))
             c["flavour"] += "+tokio"
+            cases.append(c)
+        # the same scripts inside a running turmoil::Sim, crash = Sim::crash + Sim::bounce
+        for _ in range(70 * k):
+            c = F.gen_safe(rng, stale=0.0, crash=0.12, setup_sync=rng.choice([1, 2, 2]), nhosts=rng.choice([1, 1, 2]),
+                           sync_prob=rng.choice([0.0, 0.0, 0.4]), block_size=rng.choice([None, None, 2]))
+            c["cfg"]["via"] = "sim"
+            c["flavour"] += "+Sim::crash"
             cases.append(c)
         return cases
 
